@@ -143,6 +143,15 @@ func (fv *FuncVerifier) evalCall(st *State, env *Env, call *ast.CallExpr) []Term
 		if fi, ok := fv.prog.ByObj[fn.Origin()]; ok {
 			return fv.callRepoFunc(st, env, call, fi, sig, recv, hasRecv, args)
 		}
+		// interface method of /repo with a full (requires/assigns/ensures) contract: written on a `trusted` ghost wrapper
+		// func iface_<Iface>_<Method>(self Iface, params...) results — ASSUMED for every implementation (implementations
+		// in /repo are checked against it by lemma functions that call the real method)
+		if hasRecv && types.IsInterface(recvType) {
+			if wfi := fv.ifaceWrapper(fn); wfi != nil {
+				fv.calleesUsed[ifaceKey(fn)+" (interface method: contract of the trusted wrapper "+wfi.Key+" ASSUMED for every implementation)"] = true
+				return fv.callRepoFunc(st, env, call, wfi, wfi.Obj.Type().(*types.Signature), Term{}, false, append([]Term{recv}, args...))
+			}
+		}
 		return fv.callUnknown(st, env, call, fn, sig, recv, hasRecv, args)
 	}
 	// call of a function value
@@ -472,14 +481,25 @@ func (fv *FuncVerifier) specHelper(st *State, env *Env, call *ast.CallExpr, name
 		e2 := *env
 		e2.binds = env.oldBinds()
 		e2.binds = rebindGhosts(e2.binds, env.gparams, env.old)
-		return fv.eval(env.old, &e2, call.Args[0]), true
+		n0 := len(env.old.pc)
+		r := fv.eval(env.old, &e2, call.Args[0])
+		// facts learnt while evaluating in the old state (e.g. the contract of a pure call) are facts of this path
+		for _, f := range env.old.pc[n0:] {
+			st.Assume(f)
+		}
+		return r, true
 	case "spec_entry":
 		if env.entry == nil {
 			return fv.eval(st, env, call.Args[0]), true
 		}
 		e2 := *env
 		e2.binds = rebindGhosts(env.binds, env.gparams, env.entry)
-		return fv.eval(env.entry, &e2, call.Args[0]), true
+		n0 := len(env.entry.pc)
+		r := fv.eval(env.entry, &e2, call.Args[0])
+		for _, f := range env.entry.pc[n0:] {
+			st.Assume(f)
+		}
+		return r, true
 	case "spec_has":
 		m := fv.eval(st, env, call.Args[0])
 		k := fv.eval(st, env, call.Args[1])
@@ -1449,6 +1469,41 @@ func isLvalue(e ast.Expr) bool {
 
 // applyAssigns havocs the targets named in an `assigns` clause. Targets: a parameter name (map/value passed by
 // reference), p.f (field of the object a pointer parameter refers to), `*` (everything), $global.
+// evalPathIn evaluates a parameter path p.f.g of function fi (fields through pointers) in state st under binds.
+func (fv *FuncVerifier) evalPathIn(fi *FuncInfo, st *State, path string, binds map[types.Object]Term) (Term, types.Type) {
+	parts := strings.Split(strings.TrimSpace(path), ".")
+	var pobj types.Object
+	for o := range binds {
+		if o.Name() == parts[0] {
+			pobj = o
+		}
+	}
+	if pobj == nil {
+		return Term{}, nil
+	}
+	ref := binds[pobj]
+	ct := pobj.Type()
+	for k := 1; k < len(parts); k++ {
+		p, ok := ct.Underlying().(*types.Pointer)
+		if !ok {
+			return Term{}, nil
+		}
+		stt, _ := p.Elem().Underlying().(*types.Struct)
+		var fld *types.Var
+		for j := 0; stt != nil && j < stt.NumFields(); j++ {
+			if stt.Field(j).Name() == parts[k] {
+				fld = stt.Field(j)
+			}
+		}
+		if fld == nil {
+			return Term{}, nil
+		}
+		ref = fv.readField(st, ref, fieldKey(ct, fld.Name()), fv.sortOf(fld.Type()))
+		ct = fld.Type()
+	}
+	return ref, ct
+}
+
 func (fv *FuncVerifier) applyAssigns(st *State, env *Env, fi *FuncInfo, cl *Clause, call *ast.CallExpr, binds, postBinds map[types.Object]Term) {
 	info := fi.Pkg.TypesInfo
 	for _, tgt := range splitTopLevel(cl.Text, ',') {
@@ -1466,6 +1521,18 @@ func (fv *FuncVerifier) applyAssigns(st *State, env *Env, fi *FuncInfo, cl *Clau
 		if strings.HasPrefix(tgt, "content(") && strings.HasSuffix(tgt, ")") {
 			isContent = true
 			tgt = tgt[len("content(") : len(tgt)-1]
+		}
+		if strings.HasPrefix(tgt, "abs(") && strings.HasSuffix(tgt, ")") {
+			// abstract state of a stateful interface object: evaluate the path in the pre-state, havoc its $abs cell
+			ex := tgt[len("abs(") : len(tgt)-1]
+			ref, t := fv.evalPathIn(fi, st, ex, binds)
+			if k := absKey(t); k != "" && ref.Sort == SRef {
+				fv.writeField(st, ref, k, "Abs", fv.fresh("abs_post", "Abs"))
+			} else {
+				fv.note("assigns target %q of %s not understood: everything havocked", tgt, fi.Key)
+				fv.havocAll(st)
+			}
+			continue
 		}
 		parts := strings.Split(tgt, ".")
 		// find the parameter object
@@ -1612,6 +1679,14 @@ func (fv *FuncVerifier) callUnknown(st *State, env *Env, call *ast.CallExpr, fn 
 		all := args
 		if hasRecv {
 			all = append([]Term{recv}, args...)
+			if ic := fv.prog.IfaceContracts[ifaceKey(fn)]; ic != nil && ic.Has("stateful", 0) {
+				// observer of a stateful object: also a function of the object's abstract state (a ghost heap field)
+				if isig, _ := fn.Type().(*types.Signature); isig != nil && isig.Recv() != nil {
+					if k := absKey(isig.Recv().Type()); k != "" {
+						all = append([]Term{recv, fv.readField(st, recv, k, "Abs")}, args...)
+					}
+				}
+			}
 		}
 		var sorts []Sort
 		for _, a := range all {
